@@ -28,6 +28,7 @@ Variable max : N.
 Variable aptx : bool.
 Variable vis : path -> bool.
 Variable pol : bool -> N -> path -> option E.
+Variable polv : N -> bool -> N -> path -> option E.
 
 Notation state := (state E).
 Notation nbr := (nbr E).
@@ -35,7 +36,7 @@ Notation nbr := (nbr E).
 Definition view (s : state) : list (key * E) := n_mirror (s_nbr s).
 
 Definition fresh (s : state) : list (key * E) :=
-  mirror_reach E (snd (dump E keying_ limited max aptx vis pol (s_llgr s) (s_rib s))) [].
+  mirror_reach E (snd (dump E keying_ limited max aptx vis (polv (s_pv s)) (s_llgr s) (s_rib s))) [].
 
 (* maps are compared by lookup: iteration order of the hash maps is not specified *)
 Definition same_routes (a b : list (key * E)) : Prop := forall k, kfind k a = kfind k b.
@@ -55,7 +56,9 @@ Definition withdrawal_pending (s : state) (k : key) : Prop :=
 Definition change_undelivered (s : state) (k : key) : Prop :=
   exists c, In c (n_chan (s_nbr s)) /\ c_net c = fst k.
 
-(* ---- the export rules in closed form (no LLGR-stale source) *)
+(* ---- the export rules in closed form.  [mk] says, per prefix and path, which LLGR-stale
+   marker the exported form carries; for a from-scratch dump it is the live flag of the
+   path's source. *)
 Fixpoint assoc {A} (w : N) (l : list (N * A)) : option A :=
   match l with
   | [] => None
@@ -63,21 +66,23 @@ Fixpoint assoc {A} (w : N) (l : list (N * A)) : option A :=
   end.
 
 (* what one destination contributes: (wire path id, payload) *)
-Definition sel (net : N) (paths : list path) : list (N * E) :=
+Definition sel (mk : path -> bool) (net : N) (paths : list path) : list (N * E) :=
   if negb (max =? 1) then
-    filter_map (fun q => match pol false net q with Some e => Some (p_pid q, e) | None => None end)
+    filter_map (fun q => match pol (mk q) net q with Some e => Some (p_pid q, e) | None => None end)
                (firstn (N.to_nat max) (filter vis paths))
   else match paths with
        | [] => []
-       | b :: _ => if vis b then match pol false net b with Some e => [(0, e)] | None => [] end
+       | b :: _ => if vis b then match pol (mk b) net b with Some e => [(0, e)] | None => [] end
                    else []
        end.
 
-Definition fresh_at (r : rib) (k : key) : option E :=
+Definition fresh_at (mk : N -> path -> bool) (r : rib) (k : key) : option E :=
   match rfind (fst k) r with
-  | Some d => assoc (snd k) (sel (fst k) (d_paths d))
+  | Some d => assoc (snd k) (sel (mk (fst k)) (fst k) (d_paths d))
   | None => None
   end.
+
+Definition live (fl : list N) : N -> path -> bool := fun _ q => memN (p_src q) fl.
 
 (* ---- admissible histories.
    The RIB is abstracted to its change stream; a RIB label must be a change the
@@ -91,50 +96,73 @@ Definition fresh_at (r : rib) (k : key) : option E :=
 Definition old_paths (net : N) (r : rib) : list path :=
   match rfind net r with Some d => d_paths d | None => [] end.
 
-Definition truthful (r : rib) (l : label) : Prop :=
+(*   the ghost marker of a listed path never runs ahead of the live LLGR-stale flag of its
+     source, and once an operation is complete every path in the RIB carries the live flag:
+     marking a source is reported for each of its candidate paths (as a replaced path,
+     and as a changed best path when it is the best) *)
+Definition truthful_set (fl : list N) (r : rib) (x : N * bool * bool * option N * list path) : Prop :=
+  let '(net, bc, ac, repl, paths) := x in
+  let old := old_paths net r in
+  (ac = false -> paths = old) /\
+  (bc = false -> hd_error paths = hd_error old) /\
+  NoDup (map p_pid paths) /\
+  (forall p q, In p paths -> In q old -> p_pid p = p_pid q -> p = q \/ repl = Some (p_pid p)) /\
+  (forall q, In q paths -> p_mark q = true -> memN (p_src q) fl = true).
+
+Definition marks_live (fl : list N) (r : rib) : Prop :=
+  forall d q, In d r -> In q (d_paths d) -> p_mark q = memN (p_src q) fl.
+
+Fixpoint truthful_sets (fl : list N) (r : rib) (rs : list (N * bool * bool * option N * list path)) : Prop :=
+  match rs with
+  | [] => marks_live fl r
+  | x :: t => truthful_set fl r x /\
+              truthful_sets fl (fst (rset (fst (fst (fst (fst x)))) (snd x) r)) t
+  end.
+
+Definition truthful (fl : list N) (r : rib) (l : label) : Prop :=
   match l with
   | RibSet net bc ac repl paths =>
-      let old := old_paths net r in
-      (ac = false -> paths = old) /\
-      (bc = false -> hd_error paths = hd_error old) /\
-      NoDup (map p_pid paths) /\
-      (forall p q, In p paths -> In q old -> p_pid p = p_pid q -> p = q \/ repl = Some (p_pid p))
+      truthful_set fl r (net, bc, ac, repl, paths) /\
+      (forall q, In q paths -> p_mark q = memN (p_src q) fl)
   | RibFree net false => old_paths net r = []
+  | LlgrMark src rs => truthful_sets (set_llgr src fl) r rs
+  | PolicyChange _ => False  (* a policy change during the session is outside the theorems *)
+  | LlgrFlip src b =>        (* a bare flip that flips nothing *)
+      (if b then set_llgr src fl else filter (fun x => negb (x =? src)) fl) = fl
   | _ => True
   end.
 
-(* the two open findings, as predicates of (state, label) *)
-Definition llgr_label (l : label) : Prop := exists src, l = LlgrFlip src true.
+(* the open finding, as a predicate of (state, label) *)
 Definition refresh_race_label (s : state) (l : label) : Prop :=
   l = Refresh /\ n_chan (s_nbr s) <> [].
 
 Definition ok_label (s : state) (l : label) : Prop :=
-  truthful (s_rib s) l /\ ~ llgr_label l /\ ~ refresh_race_label s l.
+  truthful (s_llgr s) (s_rib s) l /\ ~ refresh_race_label s l.
 
 Fixpoint ok_run (s : state) (ls : list label) : Prop :=
   match ls with
   | [] => True
-  | l :: t => ok_label s l /\ ok_run (step E keying_ limited max aptx vis pol s l) t
+  | l :: t => ok_label s l /\ ok_run (step E keying_ limited max aptx vis polv s l) t
   end.
 
-(* Known-finding classes over whole histories *)
-Fixpoint Known_C01_llgr (ls : list label) : Prop :=
-  match ls with
-  | [] => False
-  | l :: t => llgr_label l \/ Known_C01_llgr t
-  end.
-
+(* Known-finding class over whole histories *)
 Fixpoint Known_C01_refresh_race (s : state) (ls : list label) : Prop :=
   match ls with
   | [] => False
   | l :: t => refresh_race_label s l \/
-              Known_C01_refresh_race (step E keying_ limited max aptx vis pol s l) t
+              Known_C01_refresh_race (step E keying_ limited max aptx vis polv s l) t
   end.
 
 Fixpoint truthful_run (s : state) (ls : list label) : Prop :=
   match ls with
   | [] => True
-  | l :: t => truthful (s_rib s) l /\ truthful_run (step E keying_ limited max aptx vis pol s l) t
+  | l :: t => truthful (s_llgr s) (s_rib s) l /\
+              truthful_run (step E keying_ limited max aptx vis polv s l) t
   end.
+
+(* contract of [pol]: the LLGR_STALE marking is applied to an accepted route, it does not
+   decide acceptance (process_nlri_change calls with_llgr_stale_community after the policy) *)
+Definition pol_marks_after_accept : Prop :=
+  forall b net q, pol b net q = None <-> pol false net q = None.
 
 End Spec.
